@@ -1330,6 +1330,8 @@ class C18(Check):
         v = self.model_line(case)["value"]          # normalised; for a cyclic input the unfolding the model sees
         if case.get("entry") == "from" and v is not None and "l" in v:
             return False        # K.__from__(sequence) skips transform_dataclass: not modelled
+        if case.get("fam") == "cyc/unlimited-below-limited-root":
+            return False        # a cycle through a class without limit is not a finite unfolding: the model cannot represent it
         if has_override(case["classes"]):
             return False        # Options(override=True): the root's options replace the nested classes' own: not modelled
         return modelled(case["classes"], {"data": case["root"]}, v)
